@@ -206,7 +206,7 @@ func (ex *Exec) store(st *State, l loc, v *Value) {
 	}
 	key := typeKey(l.root)
 	for j := lo; j < hi; j++ {
-		if ex.discover != nil {
+		if ex.discover != nil && !ex.isFreshRef(l.ref) {
 			ex.discover.heap[fmt.Sprintf("%s|%d", key, j)] = heapKeyInfo{rootKey: key, root: l.root, comp: j, sort: comps[j].Sort}
 		}
 		h := ex.heapMap(st, key, j, comps[j].Sort)
@@ -236,9 +236,36 @@ func (ex *Exec) newRef(st *State) *Term {
 	return ex.tb.Add(ex.allocBase, ex.tb.Int(int64(ex.allocN)))
 }
 
+// isFreshRef: the reference was allocated by the code being executed (writes to
+// such objects are invisible to the pre-state and so not part of a frame).
+func (ex *Exec) isFreshRef(t *Term) bool {
+	return ex.allocBase != nil && t.Op == "+" && len(t.Args) == 2 && ex.allocBases[t.Args[0].id] && t.Args[1].ival != nil
+}
+
 // allocFrontierBump: after unknown code ran, objects it allocated may collide
 // with nothing we allocate later.
 func (ex *Exec) allocFrontierBump(st *State) {}
+
+// bumpFrontier: called code may have allocated objects of its own.  Everything it
+// returned lies below a new allocation frontier, above which later allocations of
+// the function under verification are numbered, so they stay distinct.
+func (ex *Exec) bumpFrontier(res *Value) {
+	if ex.allocBase == nil {
+		return
+	}
+	nb := ex.tb.Fresh("allocBase", SInt)
+	ex.allocBases[nb.id] = true
+	ex.globalFacts = append(ex.globalFacts, ex.tb.Gt(nb, ex.tb.Add(ex.allocBase, ex.tb.Int(int64(ex.allocN)))))
+	if res != nil {
+		for i, c := range ex.L.Of(res.T).Comps {
+			if c.Lift == 0 && (c.Kind == kRef || c.Kind == kSliceRef || c.Kind == kIfaceVal) && res.C[i].Sort == SInt {
+				ex.globalFacts = append(ex.globalFacts, ex.tb.Lt(res.C[i], nb))
+			}
+		}
+	}
+	ex.allocBase = nb
+	ex.allocN = 0
+}
 
 func (ex *Exec) newObject(st *State, t types.Type, init *Value) *Value {
 	ref := ex.newRef(st)
